@@ -470,7 +470,7 @@ class Env:
             return len(ctx().defs)
         return len(getattr(self, '_live', []) or [])
 
-    def check_defined(self, name, outputs, since=0):
+    def check_defined(self, name, outputs, since=0, until_event=None):
         """No division by zero / log of a non-positive value / out-of-range index is reachable in the library code run
         since `since`, and the outputs are finite.  Symbolically: every recorded definedness side condition is implied by
         the path condition alone.  On the real library: outputs finite and no numpy RuntimeWarning."""
@@ -480,6 +480,21 @@ class Env:
             return
         if self.symbolic:
             defs = ctx().defs[since:]
+            if until_event is not None:
+                # only the side conditions recorded before the first event of that kind (e.g. before the first fft call)
+                cut = None
+                for e in ctx().events:
+                    if e[0] == until_event:
+                        cut = e
+                        break
+                if cut is not None:
+                    n_before = 0
+                    for e in ctx().events:
+                        if e is cut:
+                            break
+                        if e[0] in ('div', 'def', 'sqrt', 'log', 'index'):
+                            n_before += 1
+                    defs = ctx().defs[since:][:max(0, n_before - since)] if since <= n_before else []
             cond = SB(z3.And(*defs)) if defs else True
             self.check(name, cond, _no_defs=True)
             return
@@ -719,10 +734,14 @@ def run_concrete(scen, cfg, values, impl, lib=None, rng=None, timeout=20):
     env = Env(False, 'model', lib, values, rng)
     env._feeder = feeder
     status, exc = 'ok', None
+    old = _signal.signal(_signal.SIGALRM, _alarm)
+    _signal.alarm(timeout)
     try:
         scen(env, cfg)
     except PathAbort:
         status = 'aborted'
+    except ReplayTimeout:
+        status, exc = 'aborted', 'model run exceeded the time budget (sample skipped)'
     except (EncodingGap, LimitHit) as e:
         status, exc = 'gap', f'{type(e).__name__}: {e}'
         env.tb = traceback.format_exc()
@@ -730,6 +749,8 @@ def run_concrete(scen, cfg, values, impl, lib=None, rng=None, timeout=20):
         status, exc = 'exception', f'{type(e).__name__}: {e}'
         env.tb = traceback.format_exc()
     finally:
+        _signal.alarm(0)
+        _signal.signal(_signal.SIGALRM, old)
         set_ctx(None)
     env.status, env.exc = status, exc
     env.warn_log = [e[1][0] if isinstance(e[1], tuple) else e[1] for e in c.events if e[0] == 'warn']
@@ -962,6 +983,7 @@ def run_symbolic(scen, cfg, lib, limits=None, known=None, prop='?', cfg_name='?'
             set_ctx(None)
         if status == 'ok':
             res['feasible_paths'] += 1
+        res['cut_paths'] = res.get('cut_paths', 0) + getattr(c, 'cuts', 0)
         res['solver_s'] += c.solver_time
         res['queries'] += c.queries
         res['unknown_feas'] += c.unknown_feas
